@@ -1,9 +1,126 @@
 import RefurbVerif.Wire.Basic
+import RefurbVerif.Model.Rules
 open Lean
 
 namespace RefurbVerif.Wire
+open RefurbVerif.Py
 
-/-- driver verbs of this group (filled in by the property that owns it) -/
-def handleChecks (_verb : String) (_j : Json) : Option Json := none
+def fltJ : Flt → Json
+  | .nan => Json.mkObj [("t", "float"), ("k", "nan")]
+  | .negZero => Json.mkObj [("t", "float"), ("k", "negzero")]
+  | .whole z => Json.mkObj [("t", "float"), ("k", "whole"), ("z", z)]
+
+def scalarJ : Scalar → Json
+  | .none => Json.mkObj [("t", "none")]
+  | .bool b => Json.mkObj [("t", "bool"), ("v", b)]
+  | .int i => Json.mkObj [("t", "int"), ("v", i)]
+  | .flt f => fltJ f
+  | .str s => Json.mkObj [("t", "str"), ("v", String.ofList s)]
+
+def valJ : Val → Json
+  | .sc s => scalarJ s
+  | .list xs => Json.mkObj [("t", "list"), ("items", Json.arr (xs.map scalarJ).toArray)]
+  | .tuple xs => Json.mkObj [("t", "tuple"), ("items", Json.arr (xs.map scalarJ).toArray)]
+
+def toScalar (j : Json) : Scalar :=
+  match str j "t" with
+  | "bool" => .bool (bool j "v")
+  | "int" => .int (int j "v")
+  | "str" => .str (str j "v").toList
+  | "float" =>
+    match str j "k" with
+    | "nan" => .flt .nan
+    | "negzero" => .flt .negZero
+    | _ => .flt (.whole (int j "z"))
+  | _ => .none
+
+def toVal (j : Json) : Val :=
+  match str j "t" with
+  | "list" => .list ((arr j "items").map toScalar)
+  | "tuple" => .tuple ((arr j "items").map toScalar)
+  | _ => .sc (toScalar j)
+
+def typeNameS : TypeName → String
+  | .noneType => "type(None)" | .bool => "bool" | .int => "int" | .float => "float" | .str => "str" | .list => "list" | .tuple => "tuple"
+
+def litSrc : Val → String
+  | .sc .none => "None"
+  | .sc (.bool b) => if b then "True" else "False"
+  | .sc (.int i) => toString i
+  | .sc (.flt .nan) => "float('nan')"
+  | .sc (.flt .negZero) => "-0.0"
+  | .sc (.flt (.whole z)) => s!"{z}.0"
+  | .sc (.str s) => "\"" ++ String.ofList s ++ "\""     -- only plain literals occur in the rule table
+  | .list [] => "[]"
+  | .tuple [] => "()"
+  | .list _ => "[...]"
+  | .tuple _ => "(...)"
+
+/-- Python source of a model expression (fully parenthesised) -/
+def render : PyExpr → String
+  | .var n => n
+  | .lit v => litSrc v
+  | .eq a b => s!"({render a} == {render b})"
+  | .ne a b => s!"({render a} != {render b})"
+  | .lt a b => s!"({render a} < {render b})"
+  | .le a b => s!"({render a} <= {render b})"
+  | .gt a b => s!"({render a} > {render b})"
+  | .ge a b => s!"({render a} >= {render b})"
+  | .is_ a b => s!"({render a} is {render b})"
+  | .isNot a b => s!"({render a} is not {render b})"
+  | .in_ a b => s!"({render a} in {render b})"
+  | .notIn a b => s!"({render a} not in {render b})"
+  | .and_ a b => s!"({render a} and {render b})"
+  | .or_ a b => s!"({render a} or {render b})"
+  | .not_ a => s!"(not {render a})"
+  | .ifExp t c e => s!"({render t} if {render c} else {render e})"
+  | .chainEq a b c => s!"({render a} == {render b} == {render c})"
+  | .tup1 a => s!"({render a},)"
+  | .tup2 a b => s!"({render a}, {render b})"
+  | .list1 a => s!"[{render a}]"
+  | .list2 a b => s!"[{render a}, {render b}]"
+  | .len a => s!"len({render a})"
+  | .boolOf a => s!"bool({render a})"
+  | .intOf a => s!"int({render a})"
+  | .strOf a => s!"str({render a})"
+  | .listOf a => s!"list({render a})"
+  | .tupleOf a => s!"tuple({render a})"
+  | .copy a => s!"{render a}.copy()"
+  | .min2 a b => s!"min({render a}, {render b})"
+  | .max2 a b => s!"max({render a}, {render b})"
+  | .minL a => s!"min({render a})"
+  | .maxL a => s!"max({render a})"
+  | .sorted a => s!"sorted({render a})"
+  | .index0 a => s!"{render a}[0]"
+  | .indexLast a => s!"{render a}[-1]"
+  | .sliceAll a => s!"{render a}[:]"
+  | .isinstance a t => s!"isinstance({render a}, {typeNameS t})"
+  | .typeIsNone a => s!"(type({render a}) is type(None))"
+
+def ruleJ (r : Rule) (refuted : Bool) : Json := Json.mkObj [
+  ("code", r.code), ("label", r.label),
+  ("vars", Json.arr (r.vars.map (fun p => Json.arr #[Json.str p.1, optJ (fun t => Json.str (typeNameS t)) p.2])).toArray),
+  ("old", render r.old), ("new", render r.new), ("cond_pos", r.condPos), ("refuted", refuted)]
+
+def allRules : List (Rule × Bool) := rules.map (·, false) ++ refutedRules.map (·, true)
+
+def envOfJ (j : Json) : Env := fun n =>
+  match j.getObjVal? n with
+  | .ok v => some (toVal v)
+  | .error _ => none
+
+/-- verbs: py_rules (the rule table with Python renderings), py_eval (a rule's old/new under an environment) -/
+def handleChecks (verb : String) (j : Json) : Option Json :=
+  match verb with
+  | "py_rules" => some (Json.arr (allRules.map (fun p => ruleJ p.1 p.2)).toArray)
+  | "py_eval" =>
+    match allRules[nat j "rule"]? with
+    | none => some (Json.mkObj [("error", "no such rule")])
+    | some (r, _) =>
+      let e := if str j "which" == "new" then r.new else r.old
+      some (match eval (envOfJ (obj j "env")) e with
+        | .ok v => Json.mkObj [("r", "ok"), ("v", valJ v), ("truthy", truthy v)]
+        | .error _ => Json.mkObj [("r", "raised")])
+  | _ => none
 
 end RefurbVerif.Wire
